@@ -93,3 +93,38 @@ Proof.
            (NonVacuity.w_oracle _ _ _ _ _ _ _ W) NonVacuity.W4a_printable eq_refl NonVacuity.ws_x_std).
 Qed.
 Print Assumptions C07_nonvacuous.
+
+(* PARTIAL (Proofs/SelfCheckTotal.v): totality of the CLOSED build -- the model with the self-check
+   computed inside it, no free input left.  C07_total quantifies over every self-check outcome, which
+   covers every outcome the code can produce, but says nothing about the code's `unwrap()` on the
+   compiled candidate (src/regexp.rs convert_expr_to_regex): that unwrap is safe iff the candidate
+   parses.  Proved here for non-verbose mode and candidates without raw VT/FF; see Props/C08.v
+   (C08_selfcheck_admissible_partial) for what is missing. *)
+From Grex Require Proofs.SelfCheckTotal Model.SelfCheck.
+Theorem C07_closed_build_total_partial : forall isd is_ws, ColourStripBase.digit_ok isd -> ws_ok is_ws ->
+  forall c db ws,
+    let tcs := normalise c db ws in
+    let cls := grapheme_clusters c db tcs in
+    Forall (Forall (wf_pg false)) cls -> cls <> [] ->
+    f_sur c = false -> f_verbose c = false ->
+    (forall e1, SelfCheckTotal.cand1 c cls = Some e1 -> SelfCheckTotal.no_vf (SelfCheck.cand_str isd c e1)) ->
+    exists s, SelfCheck.build_closed isd is_ws c db ws = Some s.
+Proof. exact SelfCheckTotal.build_closed_total_nonverbose. Qed.
+Print Assumptions C07_closed_build_total_partial.
+
+(* ... and in EVERY mode (Proofs/SelfCheckVerbose.v): in verbose mode the first candidate is re-compiled
+   after `replace('\n', "")` -- `Regex::new(..).unwrap()` in src/regexp.rs.  Removing the line breaks
+   from the Expression's verbose string gives exactly its non-verbose string (remove_nl_e_str: a line
+   break of a test case is always printed as the two characters \ n), which parses: that unwrap cannot
+   fail.  Hypothesis [no_vf] on the non-verbose candidate as above. *)
+From Grex Require Proofs.SelfCheckVerbose.
+Theorem C07_closed_build_total_any_mode_partial : forall isd is_ws, ColourStripBase.digit_ok isd -> ws_ok is_ws ->
+  forall c db ws,
+    let tcs := normalise c db ws in
+    let cls := grapheme_clusters c db tcs in
+    Forall (Forall (wf_pg false)) cls -> cls <> [] ->
+    f_sur c = false ->
+    (forall e1, SelfCheckTotal.cand1 c cls = Some e1 -> SelfCheckTotal.no_vf (SelfCheckVerbose.cand_nv c e1)) ->
+    exists s, SelfCheck.build_closed isd is_ws c db ws = Some s.
+Proof. exact SelfCheckVerbose.build_closed_total. Qed.
+Print Assumptions C07_closed_build_total_any_mode_partial.
